@@ -83,17 +83,18 @@ type Outcome struct {
 }
 
 type Walker struct {
-	env    *Env
-	fr     *frame
-	cur    *pstate
-	Target func(in ssa.Instruction, w *Walker) bool
-	Stop   func(b *ssa.BasicBlock) bool
-	RetIdx int
-	Visits int
-	out    []Outcome
-	paths  int
-	over   bool
-	why    string
+	env      *Env
+	fr       *frame
+	cur      *pstate
+	lastPred *ssa.BasicBlock // predecessor through which the current block was entered
+	Target   func(in ssa.Instruction, w *Walker) bool
+	Stop     func(b *ssa.BasicBlock) bool
+	RetIdx   int
+	Visits   int
+	out      []Outcome
+	paths    int
+	over     bool
+	why      string
 }
 
 type pstate struct {
@@ -102,17 +103,19 @@ type pstate struct {
 	visited   map[*ssa.BasicBlock]int
 	hit       bool
 	tag       string
-	epoch     map[*types.Var]int // stores to a field passed so far on this path
-	loadEpoch map[ssa.Value]int  // epoch at which a field load executed
-	decided   map[string]Tri     // unknown conditions already decided on this path, by access path
+	epoch     map[*types.Var]int     // stores to a field passed so far on this path
+	loadEpoch map[ssa.Value]int      // epoch at which a field load executed
+	decided   map[string]Tri         // unknown conditions already decided on this path, by access path
+	phiVal    map[*ssa.Phi]ssa.Value // the incoming value each phi took on this path
 	tm        *termer
 }
 
 func newPstate(fr *frame) *pstate {
 	ps := &pstate{vals: map[ssa.Value]Tri{}, ints: map[ssa.Value]int64{}, visited: map[*ssa.BasicBlock]int{},
-		epoch: map[*types.Var]int{}, loadEpoch: map[ssa.Value]int{}, decided: map[string]Tri{}}
+		epoch: map[*types.Var]int{}, loadEpoch: map[ssa.Value]int{}, decided: map[string]Tri{}, phiVal: map[*ssa.Phi]ssa.Value{}}
 	ps.tm = newTermer(fr)
 	ps.tm.tagOf = func(v ssa.Value) int { return ps.loadEpoch[v] }
+	ps.tm.phiOf = func(p *ssa.Phi) ssa.Value { return ps.phiVal[p] }
 	return ps
 }
 
@@ -136,6 +139,9 @@ func (p *pstate) clone(fr *frame) *pstate {
 	}
 	for k, v := range p.decided {
 		q.decided[k] = v
+	}
+	for k, v := range p.phiVal {
+		q.phiVal[k] = v
 	}
 	return q
 }
@@ -179,6 +185,7 @@ func (w *Walker) walk(b, pred *ssa.BasicBlock, ps *pstate) {
 			return
 		}
 		ps.visited[b]++
+		w.lastPred = pred
 		// phis first, all evaluated against the incoming edge
 		if pred != nil {
 			idx := -1
@@ -192,6 +199,18 @@ func (w *Walker) walk(b, pred *ssa.BasicBlock, ps *pstate) {
 				phi, ok := in.(*ssa.Phi)
 				if !ok {
 					break
+				}
+				if idx >= 0 {
+					ev := phi.Edges[idx]
+					if pe, ok := ev.(*ssa.Phi); ok {
+						if pv, ok := ps.phiVal[pe]; ok {
+							ev = pv
+						}
+					}
+					if ps.phiVal[phi] != ev {
+						ps.phiVal[phi] = ev
+						ps.tm.memo = map[ssa.Value]*Term{}
+					}
 				}
 				if idx >= 0 && isBool(phi.Type()) {
 					newv[phi] = w.evalBool(phi.Edges[idx], ps)
@@ -318,7 +337,9 @@ func (w *Walker) cmpRanks(op token.Token, x, y ssa.Value) Tri {
 	if isIntType(x.Type()) {
 		bx, kx := splitOffset(tx)
 		by, ky := splitOffset(ty)
-		if kx != 0 || ky != 0 {
+		_, xIsRole := w.env.role(tx)
+		_, yIsRole := w.env.role(ty)
+		if (kx != 0 || ky != 0) && !(xIsRole && yIsRole) && ky-kx >= -1 && ky-kx <= 1 {
 			d := ky - kx
 			tx, ty = bx, by
 			switch {
